@@ -34,6 +34,9 @@ func C17(c *core.Ctx) error {
 		"block comment":        "/*\nCopyright ACME\n  indented line\n*/\n",
 		"trailing blank line":  "// Copyright ACME\n// second\n\n",
 		"looks like directive": "// Copyright ACME\n// nolint: all\n//lint:file-ignore U1000 generated code\n",
+		// lines that gofmt would re-indent if the header became the package's doc comment
+		"indented lines":            "// Licensed under the Apache License, Version 2.0 (the \"License\");\n// you may not use this file except in compliance with the License.\n//\n//     http://www.apache.org/licenses/LICENSE-2.0\n//\n//   - a list item\n// Unless required by applicable law.\n",
+		"indented lines no newline": "// Licensed under the Apache License, Version 2.0 (the \"License\");\n//\n//     http://www.apache.org/licenses/LICENSE-2.0\n//\n// Unless required by applicable law.",
 	}
 	type cs struct {
 		expr, bname, tmpl, fmtr string
